@@ -266,10 +266,14 @@ fn check_steady(w: &World, st: &NetState, phase: &str, out: &mut RunOutcome) {
                 }
             }
             if capable && masters != 1 {
+                // does one instance have two ports on this segment?
+                let mut owners: Vec<usize> = w.segments[s].members.iter().filter_map(|m| if let Endpoint::Host { node, .. } = m { Some(*node) } else { None }).collect();
+                owners.sort();
+                let dual = owners.windows(2).any(|p| p[0] == p[1]);
                 out.violate(
                     "C01",
                     "C01.segment_master_count",
-                    format!("phase={phase} masters={masters}"),
+                    format!("phase={phase} masters={masters} dual_port_segment={dual}"),
                     format!("segment {s} has {masters} ports in the master state; members {:?}", w.segments[s].members),
                 );
             }
